@@ -66,7 +66,8 @@ def make_world(scn, start=START):
     from mc.worlds.kit import Ctx
     from demeter.squeeth.helper import get_price_from_data
 
-    spec = scenarios()[scn]
+    no_osqth = scn.endswith("|no-osqth")  # the wallet has never held oSQTH (no entry at all): the first mint creates the entry
+    spec = scenarios()[scn.split("|")[0]]
     eth_bars, kind, mark_mult, bar_minutes = spec[:4]
     nf_scale = spec[4] if len(spec) > 4 else Fraction(1)
     p = sq.pool()
@@ -104,7 +105,7 @@ def make_world(scn, start=START):
         um, sm = sq.make_markets(udata, sdata)
         ua = sq.SlimUniAdapter(um, ranges)
         sa = sq.SqueethAdapter(sm, ua, sdata)
-        ctx = Ctx(f"squeeth[{scn}]", prices, USD, [ua, sa], [(sq.WETH, 40), (sq.OSQTH, 30)], sdata.index)
+        ctx = Ctx(f"squeeth[{scn}]", prices, USD, [ua, sa], [(sq.WETH, 40)] + ([] if no_osqth else [(sq.OSQTH, 30)]), sdata.index)
         ctx.begin_bar(start)
         ctx.bar_log = []
         # part of the canonical state: whether a historical time-weighted price has been asked for in this bar (a read that leaves no trace in
@@ -316,7 +317,15 @@ class Oracle:
         part.count(f"op.{op.kind}.{'acc' if out.ok else 'rej'}")
         post_raw = ctx.raw()
         if not out.ok:
-            return  # C04 judges rejected operations
+            # a refused vault operation moves nothing between wallet and vault (C04 judges refused calls of every market in depth)
+            a, b = dict(pre_raw), dict(post_raw)
+            for r in (a, b):
+                r.pop("actions", None)
+                r["wallet"] = {k: v for k, v in r["wallet"].items() if v != 0}
+            if a != b:
+                part.violation(f"C14|refused-but-moved|{op.kind}", "a refused vault operation left oSQTH / ETH moved between wallet and vault", self.case(hist),
+                               {"wallet_before": pre_raw["wallet"], "wallet_after": post_raw["wallet"], "error": out.error})
+            return
         negs = ctx.negatives()
         if negs:
             part.violation(f"C14|negative|{op.kind}", "a vault or wallet amount went negative", self.case(hist), {"fields": negs})
@@ -477,14 +486,19 @@ def run_partition(args):
 def main(run: Run):
     depth = run.pick(3, 4)
     max_dev = run.pick(2, 3)
-    scns = list(scenarios()) if run.thorough else ["flat", "step+2%", "step+30%", "step+150%", "ne-step+30%", "mark-x2.5", "mark-x0.4", "premium1.5-mark-x0.8", "5min-ramp+3%",
-                                                    "premium1.5-ramp+4%"]
+    scns = list(scenarios()) if run.thorough else ["flat", "step+30%", "step+150%", "ne-step+30%", "mark-x2.5", "premium1.5-mark-x0.8", "5min-ramp+3%", "premium1.5-ramp+4%"]
+    scns = scns + ["flat|no-osqth"]
     jobs = []
     skipped, accepted_roots = [], set()
     for scn in scns:
-        for start in ((START, 2) if scn in ("step+30%", "flat") else ((START, 10) if scn in ("mark-x2.5", "mark-x0.4") else (START,))):
+        extra = {"step+30%": (START, 2), "mark-x2.5": (START, 10)}
+        if run.thorough:
+            extra.update({"flat": (START, 2), "mark-x0.4": (START, 10)})
+        for start in extra.get(scn, (START,)):
             world = make_world(scn, start)
             for root in ROOTS:
+                if scn.endswith("|no-osqth") and root and root[0].startswith("squni."):
+                    continue  # no oSQTH to put into a pool position
                 ctx, outs = kit.replay_history(world.build, alphabet(world), root)
                 if not all(o.ok for o in outs):
                     skipped.append((scn, start, root))  # e.g. an LP-only vault opened when the position is worth less than the 0.5 ETH minimum
